@@ -14,6 +14,7 @@ Definition run (fam : bytes) (c : value) : value :=
   else if beq fam (B "socknet") then run_socknet c
   else if beq fam (B "srv") then run_srv c
   else if beq fam (B "srvm") then run_srvm c
+  else if beq fam (B "srvi") then (match c with VL [_; inner] => run_srvm inner | _ => verr end)
   else if beq fam (B "copier") then run_copier c
   else if beq fam (B "bauth") then run_bauth c
   else if beq fam (B "b64") then run_b64 c
@@ -34,7 +35,8 @@ Definition chk (prop fam : bytes) (c o : value) : bool :=
   else if beq prop (B "C02") then (if beq fam (B "sock") then chk_C02 c o else true)
   else if beq prop (B "C03") then (if beq fam (B "sock") then chk_C03 c o else true)
   else if beq prop (B "C04") then (if beq fam (B "sock") || beq fam (B "srv") then chk_C04 c o else true)
-  else if beq prop (B "C05") || beq prop (B "C06") then (if beq fam (B "srv") then chk_route c o else if beq fam (B "srvm") then chk_route_multi c o else true)
+  else if beq prop (B "C05") || beq prop (B "C06") then (if beq fam (B "srv") then chk_route c o else if beq fam (B "srvm") then chk_route_multi c o
+                                                           else if beq fam (B "srvi") then (match c with VL [_; inner] => chk_route_multi inner o | _ => true end) else true)
   else if beq prop (B "C09") then (if beq fam (B "bauth") then chk_C09 c o else if beq fam (B "bauthm") then chk_C09m c o else true)
   else if beq prop (B "C07") then (if beq fam (B "fs") then chk_C07 c o else true)
   else if beq prop (B "C08") then (if beq fam (B "fs") then chk_C08 c o else if beq fam (B "fsm") then chk_C08m c o else true)
